@@ -129,6 +129,38 @@ func cmdTagLang(f hx.Flags, r *hx.Result) {
 	model := map[string]bool{}
 	nontrivial := map[string]bool{}
 	for ci, c := range cases {
+		if c.K == "helper" {
+			// "_" main "_" sub [ "_" action ] around the length bound: built by the three helpers from its parts
+			cs := strings.Join(c.S, "")
+			rest := cs[5:] // after "ulllu"
+			sub, act := rest, ""
+			if i := strings.IndexByte(rest, 'u'); i >= 0 {
+				sub, act = rest[:i], rest[i+1:]
+			}
+			subS := strings.Repeat("s", len(sub))
+			actS := strings.Repeat("7", len(act))
+			for hi, h := range []func(string, string) *log.Tag{log.RegisterAppTag, log.RegisterBizTag, log.RegisterRPCTag} {
+				main := []string{"app", "biz", "rpc"}[hi]
+				name := "_" + main + "_" + subS
+				if actS != "" {
+					name += "_" + actS
+				}
+				var got *log.Tag
+				p := hx.Catch(func() { got = h(subS, actS) })
+				r.Eval(1)
+				desc := map[string]any{"helper": main, "sub_len": len(sub), "action_len": len(act), "name_len": len(name), "valid": c.Valid}
+				switch {
+				case c.Valid && (p != nil || got == nil):
+					r.Violate("helper-rejected-valid", desc, "helper %s(sub of %d, action of %d) = %d-byte name panicked (%v); the specification accepts it", main, len(sub), len(act), len(name), p)
+				case !c.Valid && p == nil:
+					r.Violate("helper-accepted-invalid", desc, "helper %s built the %d-byte name %q and registered it; the specification rejects it", main, len(name), name)
+				}
+				if c.Valid {
+					model[name] = true
+				}
+			}
+			continue
+		}
 		// variant 0: class minimum, 1: class maximum, >=2: random member of the class
 		for v := 0; v < variants; v++ {
 			b := make([]byte, len(c.S))
